@@ -210,16 +210,16 @@ def rels_of(f):
                 yield r
 def items_of(f): return [f[1]] + [i for _, i in f[2]]
 
-def rel_record(r, neg_marks=True):
+def rel_record(r):
     v = r["ver"]
     vs = "-" if not v else v[2] + "." + hexs(vtext(v))
     a = r["archs"]
-    as_ = "-" if not a else "+" + ".".join(("!" if t[1] and neg_marks else "") + hexs(t[2]) for t in a[1])
+    as_ = "-" if not a else "+" + ".".join(hexs(("!" if t[1] else "") + t[2]) for t in a[1])
     ps = "".join("<" + ".".join(("d" if t[1] else "e") + hexs(t[2]) for t in g[1]) + ">" for g in r["profs"])
     q = "-" if not r["qual"] else "+" + hexs(r["qual"][2])
     return f"n:{hexs(r['name'])},q:{q},v:{vs},a:{as_},p:{ps}"
-def content_record(f, neg_marks=True):
-    return ";".join("/".join(rel_record(r, neg_marks) for r in [it[1]] + [r for _, r in it[2]]) for it in items_of(f) if it[0] == "E")
+def content_record(f):
+    return ";".join("/".join(rel_record(r) for r in [it[1]] + [r for _, r in it[2]]) for it in items_of(f) if it[0] == "E")
 def substvars_record(f):
     return ",".join(hexs(subst_text(it)) for it in items_of(f) if it[0] == "S")
 def has_subst(f): return any(it[0] == "S" for it in items_of(f))
